@@ -102,10 +102,39 @@ def run(ctx):
             ctx.case(key='%s %s' % (fam, desc(c)), nontrivial=c['p'] == 0 or c['q'] == 0 or c['s'] not in ('2', '3'))
             ctx.traces += rr['runs']
             judge(ctx, fam, c, rr)
+    special_points(ctx)
     signatures(ctx, quick)
     hint_adversaries(ctx, quick)
     ctx.sample(cases[5])
     ctx.sample(cases[300])
+
+
+def special_points(ctx):
+    """CurveSpecial.tla: points with a zero coordinate (P-256: Z = (0, sqrt b)) against the (0,0) encoding of infinity."""
+    r = ctx.tlc('CurveSpecial', 'CurveSpecial.cfg', workers=1, timeout=300)
+    cases = r.beh
+    if len(cases) < 40:
+        raise vlib.Infra('CurveSpecial produced %d cases' % len(cases))
+    for i, c in enumerate(cases):
+        c['id'] = i
+    res = ctx.harness(['curvespecial', '--par', '16'], cases, timeout=3600)
+    if len(res) != len(cases):
+        raise vlib.Infra('short special-point replay')
+    ran = 0
+    for rr in res:
+        c = cases[rr['id']]
+        if rr.get('skipped'):
+            continue
+        ran += 1
+        name = 'p256 %s P=[%d]G+[%d]Z Q=[%d]G+[%d]Z' % (c['op'], c['pg'], c['pz'], c['qg'], c['qz'])
+        ctx.case(key=name, nontrivial=True)
+        ctx.traces += rr['runs']
+        for p in rr['problems'] or []:
+            import re
+            kind = re.sub(r'\d{3,}', 'N', ':'.join(p.split(':')[:2]))[:100]
+            ctx.report('curve gadget p256 zero-coordinate point %s: %s' % (c['op'], kind.strip()), {'case': c, 'problem': p})
+    if ran < 30:
+        raise vlib.Infra('only %d special-point cases ran' % ran)
 
 
 def hint_adversaries(ctx, quick):
@@ -137,6 +166,11 @@ def hint_adversaries(ctx, quick):
         if not quick:
             add(g, 'zeroScalarResult', 'r', 'wrong', 'unsatisfiable')
             add(g, 'unitResult', 'r-1', 'wrong', 'unsatisfiable')
+    # two GLV decompositions shifted against each other (FakeGLV.tla, joint section)
+    for g in (['joint-secp256k1'] if quick else ['joint-secp256k1', 'joint-bn254']):
+        add(g, 'honest', '1', 'right', 'satisfiable')
+        add(g, 'honest', '1', 'wrong', 'unsatisfiable')
+        add(g, 'shiftDecomp', '1', 'wrong', 'unsatisfiable')
     # the hinted residue witness of the pairing checks (FakeGLV.tla, residue section): the zero strategy
     for g in ('pairing-bls12377', 'finalexp-bls12381'):
         add(g, 'honest', '1', 'right', 'satisfiable')
